@@ -14,8 +14,10 @@ LEVEL = "proof"
 MATCHERS: Dict[str, Any] = {}
 TRUSTED = [
     "Lean 4.33.0 kernel", "axioms: propext, Classical.choice, Quot.sound only (audited by #print axioms)",
-    "harness/parser_corr.py: writes the definition trees, runs the real Parser.parse, tells the model which file every "
-    "import string denotes (the file system resolves the strings on the implementation side)",
+    "harness/parser_corr.py: writes the definition trees, runs the real Parser.parse, describes the file system it built "
+    "(resolved file paths, directories, links) and the import texts as written; the MODEL resolves the texts (Model/ImportPath.lean)",
+    "CPython's re / pathlib / os.path.realpath only as the reference the models of the reserved-entry pattern and of path "
+    "resolution are compared with on every run",
     "ruamel.yaml as the reader of the shipped core_defs/*.yaml for the model side",
 ]
 
@@ -106,7 +108,38 @@ def _three(rng, maxmsg: int, per_shape: int):
     return out
 
 
+def _reserved_syntax(res: C.Result, deep: bool):
+    """the regular expression of handle_reserve: Model/ResRegex.lean (pattern + backtracking matcher), rangeSearch (the
+    scan the theorems use) and expandEntry/regReserved against the real `re` and the real handle_reserve"""
+    rng = C.rng_for(res.seed, "C12rx" + ("deep" if deep else ""))
+    entries = R.rx_entries(rng, 20000 if deep else 3000)
+    recs, lines, meta = R.rx_run(entries)
+    ex = res.extra
+    ex["reserved_syntax"] = meta
+    # a differently spelled pattern is not a difference by itself (informational, `reserved_syntax` above): what counts is
+    # that the real `re.search(<pattern of the source>)` and the model agree on every generated entry
+    out = C.parse_driver(C.run_driver("registry", lines))
+    for r in recs + [{"cid": "cls_space", "entry": "\\s over every code point"}, {"cid": "cls_digit", "entry": "[0-9] over every code point"}]:
+        o = out.get(r["cid"])
+        if o is None:
+            raise C.MachineryError(f"driver gave no answer for case {r['cid']}")
+        res.traces_validated += 1
+        if "impl" in r:
+            kind = ("ok" if r["impl"]["ids"] else "ok-empty") if r["impl"]["ok"] else r["impl"]["cls"]
+            _count(ex.setdefault("reserved_entry_outcomes", {}), kind)
+            _count(ex.setdefault("reserved_entry_regex", {}), "not-a-string" if "re" not in r else ("no-match" if r["re"] is None else "match"))
+            res.note_case(("rx", repr(r["entry"])), nontrivial=True)
+            if r.get("ids_mismatch"):
+                res.corr_diffs.append({"name": "corr:M7/message_ids_vs_message_defs", "diff": "reserved placeholders", "case": {"rx": True, "entries": [r["entry"]]}})
+        for d in o["corr"]:
+            res.corr_diffs.append({"name": "corr:M7/reserved-regex" if d.startswith(("diff regex", "diff class")) else "corr:M7/reserved-entry",
+                                   "diff": d[:400], "case": {"rx": True, "entries": [r["entry"]], "impl": r.get("impl"), "re": r.get("re")}})
+    for r in recs[:4]:
+        res.sample({"reserved_entry": r["entry"], "re.search": r.get("re"), "handle_reserve": r["impl"]}, cap=10)
+
+
 def run(res: C.Result, deep: bool):
+    _reserved_syntax(res, deep)
     cases = build_cases(res, deep)
     # corpus first
     cdir = C.CORPUS / PROP
@@ -114,12 +147,16 @@ def run(res: C.Result, deep: bool):
     if cdir.exists():
         for p in sorted(cdir.glob("*.case")):
             corpus.append((f"c{len(corpus)}", json.loads(p.read_text())))
-    res.rule = ("corpus; directed (every range boundary x core on/off x file named core_defs.yaml or not; conflicts with the "
-                "shipped core definitions; one file through five path spellings); every import relation (self imports, cycles, "
+    res.rule = ("reserved-entry syntax: 3000 (thorough: 20000) single entries — every blank of \\s x both separators, leading zeros, junk "
+                "around, near misses (other dashes, `To`, `t o`, non-ASCII digits, zero-width characters), random strings over the "
+                "pattern's alphabet, ints, bools, floats, lists — through the real re.search with the pattern read from the source and the "
+                "real handle_reserve, against the regex model, the scan and expandEntry; \\s and [0-9] over all 1,112,064 code points; "
+                "corpus; directed (every range boundary x core on/off x file named core_defs.yaml or not; conflicts with the "
+                "shipped core definitions; one file through twelve path spellings x four ways of naming the root; every kind of import that is not a definition file); every import relation (self imports, cycles, "
                 "diamonds, repeats) on <= 2 files x every planted conflict pair (36 name-kind pairs, 49 message-id pairs over "
                 "message/signal/reserved-int/reserved-range writings, module/host id and name, metadata) x every pair of "
                 "placements%s; all 512 import relations on 3 files conflict-free + %d seeded planted conflicts each; seeded random "
-                "trees of 1-6 files in sub-directories with rel/./abs/../symlink import spellings, repeated imports, shuffled "
+                "trees of 1-6 files in sub-directories with 12 import spellings (rel, ./, abs, ../dir/, symlink, nosuch/../, //, abs with /../, //abs, file.yaml/../, trailing /., up to / and down), repeated imports, shuffled "
                 "section order, comments, small or large name/id pools, reserved ranges in 9 writings; malformed stream (bad "
                 "names, non-int ids, bad reserved entries, empty files, missing/dir/.txt imports, repeated keys, files named "
                 "core_defs.yaml). A case is non-trivial when it has >= 2 files or is rejected; distinct by the case JSON."
@@ -134,6 +171,11 @@ def run(res: C.Result, deep: bool):
 
 def replay(body: Dict[str, Any]) -> int:
     rec = body.get("case") or (body.get("first_corr_diff") or {}).get("case")
+    if isinstance(rec, dict) and rec.get("rx"):
+        recs, lines, meta = R.rx_run(rec["entries"])
+        out = C.run_driver("registry", lines)
+        print(json.dumps(meta)); print(json.dumps(recs, default=repr)); print("\n".join(out))
+        return 1 if any("CORR diff" in o for o in out) else 0
     case = rec.get("case") if isinstance(rec, dict) and "case" in rec else rec
     if not case or "files" not in case:
         print("nothing replayable in this file")
